@@ -99,7 +99,7 @@ def main(argv=None):
         run.replays += r["replays"]
         run.problems.extend(r["problems"])
         for k, v in r["cross_stats"].items():
-            run.cross_stats[k] += v
+            run.cross_stats[k] = run.cross_stats.get(k, 0) + v
         if a.verbose:
             print("  [%s] %s (%s) paths=%d queries=%d %.2fs" % (
                 rec["status"], rec["id"], rec["profile"], rec["paths"], rec["queries"], rec["wall_s"]))
